@@ -62,6 +62,11 @@ CHECKS["C07"] = ("exploration",
   "144/2400 runs of the real syncRDBFile (hook) and CmdRestore.Main over generated RDBs (50-400 keys over 1-6 databases with SELECTDB alternating between consecutive keys, lua scripts in between) with parallel in {1,2,3,8,32}, target.db in {-1,2}, key/db black/white lists and five scheduler policies (random, round-robin, starve-one, newest/oldest-first); at the moment the call returns every expected (db,key) must have been restored exactly once in the right database with the source value, nothing may arrive later, scripts are loaded once each; one run in six injects an error reply or BUSYKEY on a chosen key and the run must report it (returned error / non-successful process end). Evidence counts distinct interleaving signatures and the maximum number of simultaneously pending connections. One scenario per run holds the first chunk's DEL of a 36 MiB hash back (recorded known finding).",
   "Trusted: lib/miniredis and its scheduler (the settle time only shapes interleavings; no verdict depends on it). One RESTORE per key (no quicklists, threshold above every payload).", "DESIGN.md §5/C07")
 
+CHECKS["C05"] = ("exploration",
+  "byte-stream monitor: scripted master with chosen framing and TCP fragmentation, position-coded payloads, byte-for-byte comparison of what leaves the pipe / lands in the dump file; link drop and resume observed at the master; Go race detector",
+  "180/3000 hand-offs through the real sendPSyncCmd (hook), the dump path (hook) and utils.Iocopy: 0-5 keep-alive newlines before the reply and before '$n', +FULLRESYNC/+CONTINUE in three letter cases, RDB sizes 1 B .. 34 MiB incl. 8191/8192/8193 and 65535/65536/65537, stream 1 B .. 200 KB, fragmentation plans (all at once, 1-byte dribble, odd sizes, 8 KiB+-1, 1-byte writes across the '$n' header and across the RDB/stream boundary, random) x reader pacing (fast, slow, bursty); pipe content = rdb||stream exactly, returned run id / start offset / size = announced, dump file = the n RDB bytes and the reader's leftover = beginning of the stream; every fourth psync case kills the link after half of the stream and requires PSYNC <announced id> <start+received+1> and a seamless continuation.",
+  "Trusted: lib/fakesource. TLS and the dead SYNC path of sync mode are out of reach.", "DESIGN.md §5/C05")
+
 PENDING_REASON = "monitor not built yet in this revision of /verif (planned in DESIGN.md §5); no claim is made"
 
 def main():
